@@ -766,6 +766,55 @@ func c09ProtoBadMapTasks(r *vrng) []c09Task {
 		if !ok {
 			return c09Short("STALE-SCRATCH " + c09RenderS(reflect.ValueOf(z)))
 		}
+		// scalar key and scalar value: an entry that omits its value after an entry that had one, in one message and
+		// across two calls
+		var s1, s2 struct{ M map[int32]int64 }
+		if err := proto.Unmarshal([]byte{0x0a, 0x04, 0x08, 0x01, 0x10, 0x07, 0x0a, 0x02, 0x08, 0x02, 0x0a, 0x02, 0x10, 0x09}, &s1); err != nil || len(s1.M) != 3 || s1.M[1] != 7 || s1.M[2] != 0 || s1.M[0] != 9 {
+			return c09Short(fmt.Sprintf("STALE-SCALAR-SCRATCH %v %v", s1.M, err))
+		}
+		_ = proto.Unmarshal([]byte{0x0a, 0x08, 0x08, 0x64, 0x10, 0x95, 0x9a, 0xef, 0x3a}, &s2)
+		s2.M = nil
+		if err := proto.Unmarshal([]byte{0x0a, 0x02, 0x08, 0x02}, &s2); err != nil || len(s2.M) != 1 || s2.M[2] != 0 {
+			return c09Short(fmt.Sprintf("STALE-SCALAR-SCRATCH-ACROSS-CALLS %v %v", s2.M, err))
+		}
+		return "ok"
+	}})
+	// the Tokenizer's pooled scope stack: a tokenizer that stops with containers still open (truncated input, Reset in
+	// the middle of a document, a syntax error) gives its stack back; whoever takes it next starts at depth 0 and
+	// rejects what a fresh tokenizer rejects. Outcome known by construction.
+	ts = append(ts, c09Task{fn: "c.proto.badmap.fixed", desc: "stale tokenizer stack", run: func() string {
+		for round := 0; round < 3; round++ {
+			t := json.NewTokenizer([]byte(`[[{"k":[1,2`))
+			for t.Next() {
+			}
+			t2 := json.NewTokenizer([]byte(`{"a":[{"b":1`))
+			t2.Next()
+			t2.Next()
+			t2.Reset([]byte(`[7]`))
+			var got []string
+			for t2.Next() {
+				got = append(got, fmt.Sprintf("%s/%d/%d", t2.Value, t2.Depth, t2.Index))
+			}
+			if fmt.Sprint(got) != "[[/0/0 7/1/0 ]/0/0]" || t2.Err != nil {
+				return c09Short(fmt.Sprintf("STALE-STACK after Reset %v %v", got, t2.Err))
+			}
+			t3 := json.NewTokenizer([]byte(`{"x":[true]}`))
+			got = got[:0]
+			for t3.Next() {
+				got = append(got, fmt.Sprintf("%s/%d/%d", t3.Value, t3.Depth, t3.Index))
+			}
+			if fmt.Sprint(got) != `[{/0/0 "x"/1/0 :/1/0 [/1/0 true/2/0 ]/1/0 }/0/0]` || t3.Err != nil {
+				return c09Short(fmt.Sprintf("STALE-STACK fresh %v %v", got, t3.Err))
+			}
+			for _, bad := range []string{"]", "}", "1,2"} {
+				t4 := json.NewTokenizer([]byte(bad))
+				for t4.Next() {
+				}
+				if t4.Err == nil {
+					return "STALE-STACK accepted " + bad
+				}
+			}
+		}
 		return "ok"
 	}})
 	return ts
